@@ -125,7 +125,34 @@ func genC07(t *rapid.T) C07Case {
 	return c
 }
 
+// genC07Deep: a session that keeps descending — two nodes leading to each other — to depths
+// around the powers of two below state.MaxLevel (the stored record grows one path element
+// and one cache scope per level), then comes back up a little.
+func genC07Deep(t *rapid.T) C07Case {
+	a := &app.App{Menus: map[string]string{}}
+	a.Syms = []app.Sym{{Name: "sa", Results: []app.Result{{Content: "alpha"}, {Content: "beta"}}}}
+	step := func(name, other string) app.Node {
+		return app.Node{Name: name, Tpl: name + " {{.sa}}", Code: []app.Instr{{Op: refdec.LOAD, Sym: "sa", Num: 8}, {Op: refdec.MAP, Sym: "sa"}, {Op: refdec.HALT},
+			{Op: refdec.INCMP, Sym: refdec.BS(other), Sel: "1"}, {Op: refdec.INCMP, Sym: "_", Sel: "0"}, {Op: refdec.INCMP, Sym: ".", Sel: "*"}}}
+	}
+	a.Nodes = []app.Node{{Name: "root", Tpl: "top", Code: []app.Instr{{Op: refdec.HALT}, {Op: refdec.INCMP, Sym: "ping", Sel: "1"}, {Op: refdec.INCMP, Sym: ".", Sel: "*"}}},
+		step("ping", "pong"), step("pong", "ping"), catchNode}
+	n := []int{15, 16, 17, 31, 32, 33, 62, 63, 64, 65, 66, 100, 120, 126}[uniformN(t, 14, "depth")]
+	h := []string{""}
+	for i := 0; i < n; i++ {
+		h = append(h, "1")
+	}
+	for i := uniformN(t, 4, "back"); i > 0; i-- {
+		h = append(h, "0")
+	}
+	h = append(h, "x")
+	return C07Case{App: a, Inputs: toBS(h), Backend: backends[uniformN(t, len(backends), "backend")]}
+}
+
 func genC07Main(t *rapid.T) C07Case {
+	if chancePct(t, 1, "deep") {
+		return genC07Deep(t)
+	}
 	o := fullOpts
 	o.Sloppy = chancePct(t, 20, "sloppy")
 	a := GenApp(t, o)
